@@ -27,7 +27,9 @@ type MerklePatriciaTrie struct {
 	ChangeCollector ChangeCollectorI
 	Version         Sequence
 	missingNodeKeys []Key
-	cache           *statecache.TransactionCache
+	// missingNodeKeys is appended to by lookups, which only hold the shared read lock
+	missingNodeKeysMutex sync.Mutex
+	cache                *statecache.TransactionCache
 	deleteNodes     []Node // delete nodes that added when sync from remote
 }
 
@@ -76,13 +78,17 @@ func (mpt *MerklePatriciaTrie) getNode(key Key) (n Node, err error) {
 }
 
 func (mpt *MerklePatriciaTrie) addMissingNodeKeys(key Key) {
+	mpt.missingNodeKeysMutex.Lock()
 	mpt.missingNodeKeys = append(mpt.missingNodeKeys, key)
+	mpt.missingNodeKeysMutex.Unlock()
 }
 
 func (mpt *MerklePatriciaTrie) GetMissingNodeKeys() []Key {
 	mpt.mutex.RLock()
+	mpt.missingNodeKeysMutex.Lock()
 	keys := make([]Key, len(mpt.missingNodeKeys))
 	copy(keys, mpt.missingNodeKeys)
+	mpt.missingNodeKeysMutex.Unlock()
 	mpt.mutex.RUnlock()
 	return keys
 }
